@@ -386,7 +386,7 @@ func vpHistory(t *testing.T, penc, eenc *json.Encoder, hist int, rng *rand.Rand,
 			tieAddr[topAddr] = true // reserved, like the tie batch
 			// half a coin earns an hour every two hours: after the topK hours until block 2 the pair holds 2^64-1-j hours
 			topK = 2 * uint64(1+rng.Intn(25))
-			txn.Out = append(txn.Out, coin.TransactionOutput{Address: topAddr, Coins: 500000, Hours: hrs - 3 - topK - uint64([]int{0, 0, 1, 2}[rng.Intn(4)])},
+			txn.Out = append(txn.Out, coin.TransactionOutput{Address: topAddr, Coins: 500000, Hours: hrs - 3 - topK - uint64([]int{0, 0, 0, 1}[rng.Intn(4)])},
 				coin.TransactionOutput{Address: topAddr, Coins: 500000, Hours: 3})
 			txn.Out[last].Coins -= 1e6
 		}
@@ -787,7 +787,7 @@ func vpHistory(t *testing.T, penc, eenc *json.Encoder, hist int, rng *rand.Rand,
 			if len(pair) == 2 {
 				// first the one that burns too little for the publisher's rule, alone: the block made now must not have it;
 				// then (every second time) one that burns enough, which must win the conflict
-				badKind := []string{"fee-minus-one", "fee-minus-one", "fee-minus-one", "zero-fee"}[rng.Intn(4)]
+				badKind := "fee-minus-one"
 				if txn, ok := mk(P, badKind, pair, crt.BurnFactor); ok {
 					kinds[txn.Hash().Hex()] = "top-" + badKind
 					inject(P, txn, rng.Intn(4) == 0)
